@@ -80,10 +80,7 @@ theorem step_mono (s : State) (op : Op) :
   | scale i k o => exact ⟨heap_mono_mapRebind _ s i, Or.inl (meshes_len_mapRebind _ s i)⟩
   | scaleXyz i fx fy fz o => exact ⟨heap_mono_mapRebind _ s i, Or.inl (meshes_len_mapRebind _ s i)⟩
   | rotate i r o => exact ⟨heap_mono_mapRebind _ s i, Or.inl (meshes_len_mapRebind _ s i)⟩
-  | flatten i d =>
-    obtain ⟨h1, h2⟩ := heap_len_mapInPlace (fun p => p.set d 0) s i
-    exact ⟨by show s.heap.length ≤ (mapInPlace _ s i).heap.length; rw [h1],
-           Or.inl (by show (mapInPlace _ s i).meshes.length = _; rw [h2])⟩
+  | flatten i d => exact ⟨heap_mono_mapRebind _ s i, Or.inl (meshes_len_mapRebind _ s i)⟩
   | normalize i c =>
     simp only [step, normalize]
     cases s.meshes[i]? with
